@@ -250,7 +250,16 @@ func Reinline(pkgs []*packages.Package, isNew func(*types.Func) bool, read func(
 				if closureDone[obj] == n {
 					// remove the definition: the variables it captured become plain locals again
 					d := closureDecl[obj].Def
-					edits = append(edits, edit{p.Fset.Position(d.Pos()).Offset, p.Fset.Position(d.End()).Offset, ""})
+					ds, de := p.Fset.Position(d.Pos()).Offset, p.Fset.Position(d.End()).Offset
+					// expansions made inside the removed literal go with it (its body was copied to
+					// the call sites as it was; calls in it are expanded there in the next round)
+					kept := edits[:0]
+					for _, e := range edits {
+						if !(ds <= e.start && e.end <= de) {
+							kept = append(kept, e)
+						}
+					}
+					edits = append(kept, edit{ds, de, ""})
 				}
 			}
 			if len(edits) == 0 {
@@ -444,7 +453,14 @@ func expand(p *packages.Package, f *ast.File, src []byte, s inlineSite, n int, r
 		}
 		if i+1 < len(path) {
 			switch par := path[i+1].(type) {
-			case *ast.BlockStmt, *ast.CaseClause, *ast.CommClause:
+			case *ast.BlockStmt, *ast.CaseClause:
+				stmt = st
+			case *ast.CommClause:
+				if par.Comm == st {
+					// `case <-time.After(helper(x)):` — the operands of a select are evaluated on
+					// entry, together; nothing can be put in front of one of them
+					return nil, nil, "call is an operand of a select case"
+				}
 				stmt = st
 			case *ast.IfStmt:
 				// `else if cond(helper())`: the inner if is replaced by a block
@@ -819,10 +835,28 @@ func expand(p *packages.Package, f *ast.File, src []byte, s inlineSite, n int, r
 		case !recvPtr && argPtr:
 			rt = "*(" + rt + ")"
 		}
+		// a receiver passed under its own name (`repo.helper()` inside another method of repo), never
+		// reassigned by the helper and stable during the call: the body uses the caller's variable
+		// directly (same rule as for parameters below), so closures handed to the helper that
+		// capture it still mean the same variable where they are called
+		sameRecv := false
+		if names := callee.Recv.List[0].Names; len(names) == 1 && names[0].Name != "_" && recvPtr == argPtr {
+			if id, isIdent := sel.X.(*ast.Ident); isIdent && id.Name == names[0].Name {
+				if v, isVar := p.TypesInfo.Uses[id].(*types.Var); isVar && v.Parent() != p.Types.Scope() && !v.IsField() &&
+					!assignsTo(p, callee.Body, p.TypesInfo.Defs[names[0]]) && stableDuringCall(p, f, s.call, v) {
+					sameRecv = true
+				}
+			}
+		}
 		tmp := fmt.Sprintf("_ia%d_%d", n, k)
 		k++
-		b.WriteString(tmp + " := " + rt + "\n")
-		if names := callee.Recv.List[0].Names; len(names) == 1 && names[0].Name != "_" {
+		if sameRecv {
+			// nothing to bind
+		} else {
+			b.WriteString(tmp + " := " + rt + "\n")
+		}
+		if sameRecv {
+		} else if names := callee.Recv.List[0].Names; len(names) == 1 && names[0].Name != "_" {
 			binds = append(binds, bind{names[0].Name, tmp})
 		} else {
 			b.WriteString("_ = " + tmp + "\n")
@@ -951,6 +985,28 @@ func expand(p *packages.Package, f *ast.File, src []byte, s inlineSite, n int, r
 		t    string
 	}
 	var reps []rep
+	// text of an expression of the helper's body with the renamed parameters replaced
+	rtext := func(e ast.Expr) string {
+		t := ctext(e.Pos(), e.End())
+		if len(renames) == 0 {
+			return t
+		}
+		eb := off(e.Pos())
+		var rr []rep
+		ast.Inspect(e, func(nn ast.Node) bool {
+			if id, ok := nn.(*ast.Ident); ok {
+				if to, ok := renames[p.TypesInfo.Uses[id]]; ok {
+					rr = append(rr, rep{off(id.Pos()) - eb, off(id.End()) - eb, to})
+				}
+			}
+			return true
+		})
+		sort.Slice(rr, func(i, j int) bool { return rr[i].a > rr[j].a })
+		for _, x := range rr {
+			t = t[:x.a] + x.t + t[x.b:]
+		}
+		return t
+	}
 	for _, r := range returns {
 		var repl string
 		dtxt := deferredAt(r.Pos())
@@ -969,11 +1025,11 @@ func expand(p *packages.Package, f *ast.File, src []byte, s inlineSite, n int, r
 		case len(r.Results) == nres:
 			var rs []string
 			for _, e := range r.Results {
-				rs = append(rs, ctext(e.Pos(), e.End()))
+				rs = append(rs, rtext(e))
 			}
 			repl = "{ " + resList + " = " + strings.Join(rs, ", ") + "; " + dtxt + "break " + label + " }"
 		case len(r.Results) == 1 && nres > 1:
-			repl = "{ " + resList + " = " + ctext(r.Results[0].Pos(), r.Results[0].End()) + "; " + dtxt + "break " + label + " }"
+			repl = "{ " + resList + " = " + rtext(r.Results[0]) + "; " + dtxt + "break " + label + " }"
 		default:
 			return nil, nil, "return arity"
 		}
@@ -987,6 +1043,13 @@ func expand(p *packages.Package, f *ast.File, src []byte, s inlineSite, n int, r
 	}
 	if len(renames) > 0 {
 		ast.Inspect(callee.Body, func(nn ast.Node) bool {
+			if rs, ok := nn.(*ast.ReturnStmt); ok {
+				for _, r := range returns {
+					if r == rs {
+						return false // replaced as a whole above (rtext)
+					}
+				}
+			}
 			if id, ok := nn.(*ast.Ident); ok {
 				if to, ok := renames[p.TypesInfo.Uses[id]]; ok {
 					reps = append(reps, rep{off(id.Pos()) - base, off(id.End()) - base, to})
@@ -1430,12 +1493,83 @@ func UnrollConstRanges(pkgs []*packages.Package, read func(string) ([]byte, erro
 					return true
 				}
 				lit, ok := rs.X.(*ast.CompositeLit)
-				if !ok || len(lit.Elts) == 0 || len(lit.Elts) > 4 {
+				var tableDef *ast.AssignStmt
+				if tid, isID := rs.X.(*ast.Ident); !ok && isID {
+					// a local defined once by a literal (`header := []interface{}{version, count}`)
+					// and used by this loop only
+					tobj := p.TypesInfo.Uses[tid]
+					if fd := enclosingFunc(f, rs.Pos()); tobj != nil && fd != nil {
+						nUse := 0
+						ast.Inspect(fd.Body, func(y ast.Node) bool {
+							switch z := y.(type) {
+							case *ast.AssignStmt:
+								if len(z.Lhs) == 1 && len(z.Rhs) == 1 && z.Tok == token.DEFINE {
+									if id, ok := z.Lhs[0].(*ast.Ident); ok && p.TypesInfo.Defs[id] == tobj {
+										if cl, ok := z.Rhs[0].(*ast.CompositeLit); ok {
+											lit, tableDef = cl, z
+										}
+									}
+								}
+							case *ast.Ident:
+								if p.TypesInfo.Uses[z] == tobj {
+									nUse++
+								}
+							}
+							return true
+						})
+						if nUse != 1 || tableDef == nil {
+							return true
+						}
+						ok = true
+					}
+				}
+				if !ok || lit == nil || len(lit.Elts) == 0 || len(lit.Elts) > 4 {
 					return true
+				}
+				pureEntries := false
+				var isPure func(e ast.Expr) bool
+				isPure = func(e ast.Expr) bool {
+					if tv, ok := p.TypesInfo.Types[e]; ok && tv.Value != nil {
+						return true
+					}
+					switch x := e.(type) {
+					case *ast.Ident:
+						_, isVar := p.TypesInfo.Uses[x].(*types.Var)
+						return isVar
+					case *ast.SelectorExpr:
+						if sel, ok := p.TypesInfo.Selections[x]; ok && sel.Kind() == types.FieldVal {
+							return isPure(x.X)
+						}
+					case *ast.ParenExpr:
+						return isPure(x.X)
+					case *ast.BinaryExpr:
+						return x.Op != token.LAND && x.Op != token.LOR && isPure(x.X) && isPure(x.Y)
+					case *ast.CallExpr:
+						if len(x.Args) != 1 {
+							return false
+						}
+						if tv, ok := p.TypesInfo.Types[x.Fun]; ok && tv.IsType() {
+							return isPure(x.Args[0])
+						}
+						if id, ok := x.Fun.(*ast.Ident); ok {
+							if _, isB := p.TypesInfo.Uses[id].(*types.Builtin); isB && (id.Name == "len" || id.Name == "cap") {
+								return isPure(x.Args[0])
+							}
+						}
+					}
+					return false
 				}
 				isConst := func(e ast.Expr) bool {
 					tv, ok := p.TypesInfo.Types[e]
-					return ok && tv.Value != nil
+					if ok && tv.Value != nil {
+						return true
+					}
+					// a pure expression over variables the loop does not change
+					if _, isLit := e.(*ast.CompositeLit); !isLit && isPure(e) {
+						pureEntries = true
+						return true
+					}
+					return false
 				}
 				nested := false
 				for _, e := range lit.Elts {
@@ -1458,6 +1592,46 @@ func UnrollConstRanges(pkgs []*packages.Package, read func(string) ([]byte, erro
 				obj := p.TypesInfo.Defs[vid]
 				if obj == nil || assignsTo(p, rs.Body, obj) {
 					return true
+				}
+				elemConv := ""
+				if pureEntries {
+					if nested {
+						return true
+					}
+					// the variables the entries read must not be written or redeclared by the body
+					stable := true
+					for _, e := range lit.Elts {
+						ast.Inspect(e, func(x ast.Node) bool {
+							if id, ok := x.(*ast.Ident); ok {
+								if v, isVar := p.TypesInfo.Uses[id].(*types.Var); isVar {
+									if assignsTo(p, rs.Body, v) {
+										stable = false
+									}
+									ast.Inspect(rs.Body, func(y ast.Node) bool {
+										if d, ok := y.(*ast.Ident); ok && p.TypesInfo.Defs[d] != nil && d.Name == id.Name {
+											stable = false
+										}
+										if ue, ok := y.(*ast.UnaryExpr); ok && ue.Op == token.AND {
+											if aid, ok := ue.X.(*ast.Ident); ok && p.TypesInfo.Uses[aid] == types.Object(v) {
+												stable = false
+											}
+										}
+										return stable
+									})
+								}
+							}
+							return stable
+						})
+					}
+					if !stable {
+						return true
+					}
+					// each use keeps the element type of the table
+					ts, more, okT := typeText(p, f, obj.Type())
+					if !okT || len(more) > 0 {
+						return true
+					}
+					elemConv = ts
 				}
 				// body restrictions
 				okBody := true
@@ -1543,6 +1717,9 @@ func UnrollConstRanges(pkgs []*packages.Package, read func(string) ([]byte, erro
 						var repl string
 						if u.idx < 0 {
 							repl = "(" + string(src[off(e.Pos()):off(e.End())]) + ")"
+							if elemConv != "" {
+								repl = "(" + elemConv + ")" + repl
+							}
 						} else {
 							in := e.(*ast.CompositeLit)
 							if u.idx >= len(in.Elts) {
@@ -1560,6 +1737,10 @@ func UnrollConstRanges(pkgs []*packages.Package, read func(string) ([]byte, erro
 				endLine := p.Fset.Position(rs.End()).Line
 				sb.WriteString(fmt.Sprintf("}\n//line %s:%d\n", fname, endLine))
 				edits = append(edits, edit{off(rs.Pos()), off(rs.End()), sb.String()})
+				if tableDef != nil {
+					nl := strings.Count(string(src[off(tableDef.Pos()):off(tableDef.End())]), "\n")
+					edits = append(edits, edit{off(tableDef.Pos()), off(tableDef.End()), strings.Repeat("\n", nl)})
+				}
 				notes = append(notes, fmt.Sprintf("loop over a constant table of %d entries at %s analysed unrolled", len(lit.Elts), shortPos(p.Fset.Position(rs.Pos()))))
 				return false
 			})
@@ -1896,6 +2077,119 @@ func UnrollStepTables(pkgs []*packages.Package, read func(string) ([]byte, error
 					return false
 				})
 			}
+			if len(edits) == 0 {
+				continue
+			}
+			sort.Slice(edits, func(i, j int) bool { return edits[i].start > edits[j].start })
+			out := append([]byte{}, src...)
+			for _, e := range edits {
+				out = append(out[:e.start], append([]byte(e.text), out[e.end:]...)...)
+			}
+			overlay[fname] = out
+		}
+	}
+	return overlay, notes
+}
+
+// InlineCondLocals rewrites
+//
+//	v := <boolean expression>
+//	if v { … }            (or `if !v`)
+//
+// into `if <expression> { … }` when v is defined by that statement, is used nowhere else and the if
+// follows immediately (no init statement): the rules look for the tests that guard an action, and a
+// test parked in a one-use local is the same test.
+func InlineCondLocals(pkgs []*packages.Package, read func(string) ([]byte, error)) (map[string][]byte, []string) {
+	overlay := map[string][]byte{}
+	var notes []string
+	for _, p := range pkgs {
+		info := p.TypesInfo
+		for _, f := range p.Syntax {
+			fname := p.Fset.Position(f.Pos()).Filename
+			if strings.HasSuffix(fname, "_test.go") {
+				continue
+			}
+			var src []byte
+			var edits []edit
+			off := func(pos token.Pos) int { return p.Fset.Position(pos).Offset }
+			uses := map[types.Object]int{}
+			ast.Inspect(f, func(n ast.Node) bool {
+				if id, ok := n.(*ast.Ident); ok {
+					if o := info.Uses[id]; o != nil {
+						uses[o]++
+					}
+				}
+				return true
+			})
+			visit := func(list []ast.Stmt) {
+				for i := 0; i+1 < len(list); i++ {
+					as, ok := list[i].(*ast.AssignStmt)
+					if !ok || as.Tok != token.DEFINE || len(as.Lhs) != 1 || len(as.Rhs) != 1 {
+						continue
+					}
+					id, ok := as.Lhs[0].(*ast.Ident)
+					if !ok || id.Name == "_" {
+						continue
+					}
+					obj := info.Defs[id]
+					if obj == nil || uses[obj] != 1 {
+						continue
+					}
+					if bt, ok := obj.Type().Underlying().(*types.Basic); !ok || bt.Kind() != types.Bool {
+						continue
+					}
+					ifs, ok := list[i+1].(*ast.IfStmt)
+					if !ok || ifs.Init != nil {
+						continue
+					}
+					cond := ifs.Cond
+					neg := false
+					for {
+						if pe, ok := cond.(*ast.ParenExpr); ok {
+							cond = pe.X
+							continue
+						}
+						if ue, ok := cond.(*ast.UnaryExpr); ok && ue.Op == token.NOT {
+							neg = !neg
+							cond = ue.X
+							continue
+						}
+						break
+					}
+					cid, ok := cond.(*ast.Ident)
+					if !ok || info.Uses[cid] != obj {
+						continue
+					}
+					if src == nil {
+						b, err := read(fname)
+						if err != nil {
+							break
+						}
+						src = b
+					}
+					expr := string(src[off(as.Rhs[0].Pos()):off(as.Rhs[0].End())])
+					repl := "(" + expr + ")"
+					if neg {
+						repl = "!(" + expr + ")"
+					}
+					// the definition goes (newlines kept), the condition takes the expression
+					nl := strings.Count(string(src[off(as.Pos()):off(as.End())]), "\n")
+					edits = append(edits, edit{off(as.Pos()), off(as.End()), strings.Repeat("\n", nl)})
+					edits = append(edits, edit{off(ifs.Cond.Pos()), off(ifs.Cond.End()), strings.ReplaceAll(repl, "\n", " ")})
+					notes = append(notes, fmt.Sprintf("one-use condition variable %s at %s read as the condition itself", id.Name, shortPos(p.Fset.Position(as.Pos()))))
+				}
+			}
+			ast.Inspect(f, func(n ast.Node) bool {
+				switch x := n.(type) {
+				case *ast.BlockStmt:
+					visit(x.List)
+				case *ast.CaseClause:
+					visit(x.Body)
+				case *ast.CommClause:
+					visit(x.Body)
+				}
+				return true
+			})
 			if len(edits) == 0 {
 				continue
 			}
